@@ -105,9 +105,13 @@ def map34(ctx):
 
     class B(PyStub):
         vects = V
+        origin = symarray('o', (3,), real=True)       # a vector conversion must not pick up the cell's origin
 
         def ishexagonal(self):
             return self.hex
+
+        def position_relative_to_cartesian(self, r):
+            return np.asarray(r, dtype=object).dot(V) + self.origin
     b = B()
     b.hex = True
     x3 = symarray('x', (3,), real=True)
